@@ -55,6 +55,7 @@ type c20Step struct {
 
 type c20Path struct {
 	ID, Role, Exit, Decisions string
+	Sites                     string // run.go lines of the last event of every CFG path merged into this projection
 	Raw                       int
 	Steps                     []c20Step
 }
@@ -245,7 +246,12 @@ func (a c20Snap) diff(b c20Snap) string {
 	var d []string
 	add := func(n string, x, y any) {
 		if x != y {
-			d = append(d, fmt.Sprintf("%s %v->%v", n, x, y))
+			switch x.(type) {
+			case bool, int, int32:
+				d = append(d, fmt.Sprintf("%s %v->%v", n, x, y))
+			default: // pointers, channels, errors, timestamps: keep the signature independent of addresses
+				d = append(d, n+" changed")
+			}
 		}
 	}
 	add("reloadPending", a.pending, b.pending)
@@ -352,7 +358,13 @@ func c20InClass(p *c20Path, classes string) bool {
 
 // c20Relisten: main-loop paths of the "Re-listening after reload" branch (`listener == nil` while reloading).
 func c20Relisten(p *c20Path) bool {
-	return strings.Contains(p.Decisions, "listener == nil=true") && len(p.Steps) > 3
+	reloading := false
+	for _, s := range p.Steps {
+		if s.Guard && s.N == "reloadManager.reloading.Load()" && s.Want {
+			reloading = true
+		}
+	}
+	return reloading && strings.Contains(p.Decisions, "listener == nil=true")
 }
 
 func (h *c20H) step(role string, name string, f func()) {
@@ -929,10 +941,10 @@ func VerifC20ModelPaths() map[string]any {
 				if s.Guard {
 					steps = append(steps, fmt.Sprintf("[%s]=%v", s.N, s.Want))
 				} else {
-					steps = append(steps, s.N)
+					steps = append(steps, fmt.Sprintf("%s@%d", s.N, s.L))
 				}
 			}
-			m := map[string]any{"id": p.ID, "merged_cfg_paths": p.Raw, "events": strings.Join(steps, " ; ")}
+			m := map[string]any{"id": p.ID, "merged_cfg_paths": p.Raw, "last_event_lines_of_merged_paths": p.Sites, "events": strings.Join(steps, " ; ")}
 			if p.Exit != "" {
 				m["process_exit"] = p.Exit
 			} else if p.Role == "worker" {
